@@ -35,6 +35,7 @@ pub fn main(args: &Args) -> i32 {
         sql_percent: sql,
         regimes: vec![Regime::Causal, Regime::Unrestricted],
         retention: 1..=6,
+        side_percent: 45,
         ..SetupOpts::default()
     };
     let weights = Weights {
@@ -42,12 +43,13 @@ pub fn main(args: &Args) -> i32 {
         merge_pending: 2,
         clear_pending: 2,
         restart: 2,
+        side: 6,
         ..Weights::default()
     };
     let spec = Spec {
         id: "C08",
         level: "exploration",
-        rule: "plans rich in group-data updates (name, description, admins, relays, image fields, Nostr-id rotation), merges, clears, leaves, races and restarts; after every API call the acting client's record (epoch, name, description, admins, image fields, Nostr group id) and relay set are compared with its MLS state; non-trivial = a call that changed the MLS epoch or the extension; distinct = distinct plans".into(),
+        rule: "plans rich in group-data updates (name, description, admins, relays, image fields, Nostr-id rotation), merges, clears, leaves, races and restarts; after every API call the acting client's record (epoch, name, description, admins, image fields, Nostr group id) and relay set are compared with its MLS state; 45 % of the worlds carry a second live group on some of the same clients (messages, self-updates, renames, Nostr-id rotations and relay changes there): every event must be stored in the group whose current Nostr group id it carries (also after that id rotated), no event or call of one group may change the other group's fingerprint (checked around every delivery, incl. rollbacks), events re-tagged with the other group's id are refused without effect, and the second group's record mirrors its MLS state too; non-trivial = a call that changed the MLS epoch or the extension; distinct = distinct plans".into(),
         assumptions: vec!["only groups in state Active are judged".into()],
         min_nontrivial: 20,
         max_shrink_iters: 300,
